@@ -337,6 +337,14 @@ func provablyNonNilErr(v ssa.Value, b *ssa.BasicBlock, depth int) bool {
 		}
 	case *ssa.Extract:
 		return core.NilKnownAt(b, x, false)
+	case *ssa.Phi:
+		// the error paths of an expanded helper joined: every edge carries a non-nil error where it comes from
+		for i, e := range x.Edges {
+			if !provablyNonNilErr(e, x.Block().Preds[i], depth+1) {
+				return false
+			}
+		}
+		return len(x.Edges) > 0
 	}
 	return false
 }
